@@ -114,15 +114,21 @@ Proof. exact C05_classify_sound_proof. Qed.
 Print Assumptions C05_classify_sound.
 
 (* any interleaving of Get / BatchGet / SetSnapshotTS — including calls that FAIL after part of their
-   keys were read — on a snapshot with the cache returns what the same program returns without a
-   cache; a failed call leaves the snapshot (cache and version) exactly as it was, so it caches
-   nothing, not even the pairs it did read; nothing is cached while the version is the max timestamp *)
+   keys were read, and calls refused by the transaction safe point [sp] (CheckVisibility) — on a
+   snapshot with the cache returns what the same program returns without a cache; a failed call leaves
+   the snapshot (cache and version) exactly as it was; a read refused by the safe point caches nothing
+   and stays refused on every re-read (Get, and BatchGet of a non-empty key list) whatever ran before on
+   that snapshot object; nothing is cached while the version is the max timestamp *)
 Theorem C05_cache_transparent :
-  forall (rd : N -> key -> option value) (ops : list cop) (ts : N),
-    c_run rd (mkSnap ts None) ops = u_run rd ts ops /\
-    (version (c_final rd (mkSnap ts None) ops) = maxts -> cached (c_final rd (mkSnap ts None) ops) = None) /\
-    (forall s k, c_step rd s (CGetErr k) = (RErr, s)) /\
-    (forall s ks got, c_step rd s (CBatchErr ks got) = (RErr, s)).
+  forall (rd : N -> key -> option value) (sp : N) (ops : list cop) (ts : N),
+    c_run rd sp (mkSnap ts None) ops = u_run rd sp ts ops /\
+    (version (c_final rd sp (mkSnap ts None) ops) = maxts -> cached (c_final rd sp (mkSnap ts None) ops) = None) /\
+    (forall s k, c_step rd sp s (CGetErr k) = (RErr, s)) /\
+    (forall s ks got, c_step rd sp s (CBatchErr ks got) = (RErr, s)) /\
+    (let s := c_final rd sp (mkSnap ts None) ops in
+     version s < sp ->
+     (forall k, c_step rd sp s (CGet k) = (RRefused, s)) /\
+     (forall ks, ks <> [] -> c_step rd sp s (CBatchGet ks) = (RRefused, s))).
 Proof. exact C05_cache_transparent_proof. Qed.
 Print Assumptions C05_cache_transparent.
 
@@ -196,7 +202,7 @@ Example ex_reverse_bounded :
 Proof. vm_compute. reflexivity. Qed.
 
 Example ex_cache :
-  c_run (fun ts k => if ts <? 20 then Some [1] else None) (mkSnap 10 None)
+  c_run (fun ts k => if ts <? 20 then Some [1] else None) 0 (mkSnap 10 None)
         [CGet [97]; CBatchErr [[97]; [98]] [[98]]; CGet [98]; CSetTS 30; CGet [97]; CSetTS maxts; CGet [97]]
   = [RGet (Some [1]); RErr; RGet (Some [1]); RUnit; RGet None; RUnit; RGet None].
 Proof. vm_compute. reflexivity. Qed.
@@ -216,4 +222,11 @@ Proof. vm_compute. reflexivity. Qed.
 Example ex_buffer_tier :
   buffer_batch_get 10 (fun i => if Nat.eqb i 0 then EvRegionErr [[101]] else EvOk) [] ex_world 48 [[97]; [101]; [102]; [103]]
   = Some [([102], [9])].
+Proof. vm_compute. reflexivity. Qed.
+
+(* safe point 15: reads at version 10 are refused and stay refused; after moving to 30 they are served *)
+Example ex_refused :
+  c_run (fun ts k => Some [1]) 15 (mkSnap 10 None)
+        [CGet [97]; CGet [97]; CBatchGet [[97]; [98]]; CSetTS 30; CGet [97]; CBatchGet [[97]]]
+  = [RRefused; RRefused; RRefused; RUnit; RGet (Some [1]); RBatch [([97], Some [1])]].
 Proof. vm_compute. reflexivity. Qed.
